@@ -5,6 +5,7 @@ import (
 	"encoding/xml"
 	"errors"
 	"fmt"
+	"math"
 	"strconv"
 )
 
@@ -402,13 +403,14 @@ func validatePageSettings(settings *PageSettings) error {
 		// 检查尺寸范围（Word支持的最小和最大尺寸）
 		const minSize = 12.7  // 0.5英寸
 		const maxSize = 558.8 // 22英寸
-		// 尺寸以 twips（1/20磅）取整保存，读回后会有不到 0.01mm 的误差，
-		// 位于边界上的合法尺寸不能因此在之后的设置调用中被拒绝
-		const rounding = 0.01
-
-		if settings.CustomWidth < minSize-rounding || settings.CustomWidth > maxSize+rounding ||
-			settings.CustomHeight < minSize-rounding || settings.CustomHeight > maxSize+rounding {
-			return fmt.Errorf("页面尺寸必须在%.1f-%.1fmm范围内", minSize, maxSize)
+		// 尺寸以 twips（1/20磅）取整保存：按实际保存的值判断是否在范围内。位于边界上的尺寸读回后
+		// 与边界相差不到半个 twip，不会在之后的设置调用中被拒绝；而超出范围不止取整误差的请求
+		//（保存后也在范围之外）从一开始就被拒绝，不会先被接受、再让后面的每次设置调用失败
+		minTwips, maxTwips := math.RoundToEven(mmToTwips(minSize)), math.RoundToEven(mmToTwips(maxSize))
+		for _, dimension := range []float64{settings.CustomWidth, settings.CustomHeight} {
+			if stored := math.RoundToEven(mmToTwips(dimension)); stored < minTwips || stored > maxTwips {
+				return fmt.Errorf("页面尺寸必须在%.1f-%.1fmm范围内", minSize, maxSize)
+			}
 		}
 	}
 
